@@ -1,5 +1,7 @@
 """Monitors that step the token-game reference in lock-step with the conductor."""
 
+import json
+
 from vx import refdef as rd
 from vx import refmodel as rm
 from vx.explore import Monitor
@@ -54,6 +56,26 @@ class FlowBase(Monitor):
         g["off"] = "rerun"
         return []
 
+    # route numbers are opaque labels: they are bound to reference lineages when the engine creates them
+    def lineage_of(self, g, view, route):
+        k = str(route)
+        if k in g["rmap"]:
+            return list(g["rmap"][k])
+        return list(view["state"]["routes"][route])
+
+    def bind_new_routes(self, g, pre, post, info):
+        n0, n1 = len(pre["state"]["routes"]), len(post["state"]["routes"])
+        if n1 <= n0:
+            return
+        bound = [json.dumps(v) for v in g["rmap"].values()]
+        for idx in range(n0, n1):
+            content = list(post["state"]["routes"][idx])
+            for (tgt, lin, what) in info.get("targets", []):
+                if what == "token" and rm.Ref.strip(lin) == content and json.dumps(lin) not in bound:
+                    g["rmap"][str(idx)] = list(lin)
+                    bound.append(json.dumps(lin))
+                    break
+
     # -----------------------------------------------------------------------
     def on_step(self, pre, move, sim, res, post, ctx):
         g = sim.ghost[self.name]
@@ -72,7 +94,7 @@ class FlowBase(Monitor):
                     g["off"] = "exception in dispatch"
                     return []
                 for o in res.offers or []:
-                    lineage = list(post["state"]["routes"][o["route"]])
+                    lineage = self.lineage_of(g, post, o["route"])
                     run, consumed = self.ref.offer(g, o["id"], lineage)
                     self.stats["offers_matched"] += 1
                     out.extend(self.check_offer(g, o, run, consumed, post) or [])
@@ -89,7 +111,7 @@ class FlowBase(Monitor):
                     g["off"] = "exception in update_task_state"
                     return []
                 task, route, item = res.extra["action"]
-                lineage = list(pre["state"]["routes"][route])
+                lineage = self.lineage_of(g, pre, route)
                 rec = latest_record(post, task, route)
                 prec = latest_record(pre, task, route)
                 if item is None:
@@ -117,6 +139,7 @@ class FlowBase(Monitor):
                     wf_active=pre["status"] in ACTIVE_WF,
                     engine_retried=bool(rec and rec.get("status") == "retrying"),
                 )
+                self.bind_new_routes(g, pre, post, info)
                 self.stats["completions_stepped"] += 1
                 self.stats["trusted_conditions"] += info.get("trusted", 0)
                 out.extend(self.check_completion(g, info, pre, post, sim, res) or [])
